@@ -1,6 +1,9 @@
 """C07 — stream framing independent of segmentation (DESIGN.md §5 C07).
 
-Proof: Props/C07.lean — run_chunk_independent, run_delivers_sent, oversize_closes for every byte stream and chunking.
+Proof: Props/C07.lean — run_chunk_independent, run_delivers_sent, oversize_closes for every byte stream and chunking;
+       Props/C07Opts.lean — the same run with messages that carry their options (runO_chunk_independent, runO_erase), and
+       "complete": an option that is due (Spec/FramingOpts.lean, from the RFC length tables) is never skipped
+       (table_admits_rfc_lengths, due_kept, walkOptsO_due).
 Tie: T — length-class thresholds, option-extension constants and the signal code list are regenerated from /repo;
      X — a real tcp/client.Conn over net.Pipe (synctest): frames built by an independent Python encoder are cut into
          reads (single bytes, cuts inside headers, several frames per read, several segmentations of one stream) and the
@@ -10,7 +13,7 @@ import random
 
 from . import common
 
-MODULES = ["CoapVerif.Props.C07", "CoapVerif.Props.C07Write", "CoapVerif.Lemmas.FramingCodecLink"]
+MODULES = ["CoapVerif.Props.C07", "CoapVerif.Props.C07Write", "CoapVerif.Props.C07Opts", "CoapVerif.Lemmas.FramingCodecLink"]
 GENERATED = ["TcpFraming.lean", "CodecConsts.lean", "OptionDefs.lean"]
 SIGNALS = [225, 226, 227, 228, 229]
 
@@ -52,6 +55,25 @@ def frame(code, token, opts, payload, declared=None):
 
 BLOCK_OPTS = (23, 27, 28, 60)
 
+# options by name, each with value lengths the defining RFC allows (both ends of the range): numbers the library's
+# definition table lists (3 Uri-Host ... 258 No-Response) and numbers it does not list - 9 OSCORE (RFC 8613), 16 Hop-Limit
+# (RFC 8768), 19/31 Q-Block (RFC 9177), 252 Echo / 292 Request-Tag (RFC 9175), unassigned even (elective: 40, 2050, 65000,
+# 65534) and odd (critical: 2049, 2053, 65535) numbers.  "Complete" covers all of them (seeded C07-V dropped the even ones).
+NAMED_OPTS = [(3, (1, 255)), (6, (0, 3)), (7, (0, 2)), (8, (0, 255)), (9, (0, 255)), (11, (0, 255)), (12, (0, 2)), (14, (0, 4)),
+              (15, (0, 255)), (16, (1, 1)), (17, (0, 2)), (19, (0, 3)), (20, (0, 255)), (31, (0, 3)), (35, (1, 1034)),
+              (39, (1, 255)), (40, (0, 300)), (252, (1, 40)), (258, (0, 1)), (292, (0, 8)), (2049, (0, 20)), (2050, (0, 20)),
+              (2053, (0, 3)), (65000, (0, 270)), (65534, (0, 13)), (65535, (0, 13))]
+
+
+def named_opts(rng):
+    picks = sorted(rng.sample(NAMED_OPTS, rng.choice([1, 2, 3, 4, 6])))
+    out = []
+    for num, (lo, hi) in picks:
+        for _ in range(2 if (num in (11, 15, 65000) and rng.random() < 0.3) else 1):   # repeatable options twice
+            vl = rng.choice([lo, hi, min(hi, lo + 1), rng.randrange(lo, hi + 1)])
+            out.append((num, bytes(rng.randrange(256) for _ in range(vl))))
+    return out
+
 
 def rand_frame(rng, max_size, noblock=False):
     """(frame bytes, kind); noblock: no Block1/Block2/Size1/Size2 option numbers (streams for a connection whose block-wise
@@ -60,7 +82,9 @@ def rand_frame(rng, max_size, noblock=False):
     token = bytes(rng.randrange(256) for _ in range(rng.choice([0, 0, 1, 2, 4, 8, rng.randrange(9)])))
     opts = []
     num = 0
-    if code not in SIGNALS:
+    if code not in SIGNALS and rng.random() < 0.4:
+        opts = named_opts(rng)
+    elif code not in SIGNALS:
         for _ in range(rng.choice([0, 0, 1, 2, 3, 5])):
             num += rng.choice([0, 1, 3, 11, 12, 13, 14, 40, 255, 256, 269, 270, 300, 2000])
             if num == 0:
@@ -85,7 +109,13 @@ def rand_frame(rng, max_size, noblock=False):
         pl = rng.choice([269, 300, 1024, 4000, 65804, 65805, 65806, 66000])
     pl = min(pl, room)
     payload = bytes((i * 7 + len(token)) & 0xFF for i in range(pl))
-    return frame(code, token, opts, payload), "valid"
+    listed = (1, 3, 4, 5, 6, 7, 8, 11, 12, 14, 15, 17, 20, 23, 27, 28, 35, 39, 60, 258)   # only for the histogram of inputs
+    cls = "valid"
+    if any(n not in listed and n % 2 == 0 for n, _ in opts):
+        cls = "valid-opt-unlisted-elective"
+    elif any(n not in listed for n, _ in opts):
+        cls = "valid-opt-unlisted-critical"
+    return frame(code, token, opts, payload), cls
 
 
 def bad_frame(rng, max_size):
@@ -226,7 +256,7 @@ def explore(ctx, art):
             ok = False
             if mo[-1] == "1" and io[-1] == "1" and mo[0] == "ord" and io[0] == "ord":
                 mk, ik = int(mo[1]), int(io[1])
-                ok = ik <= mk and io[2:2 + 4 * ik] == mo[2:2 + 4 * ik] and io[2 + 4 * ik:] == mo[2 + 4 * mk:]
+                ok = ik <= mk and io[2:2 + 5 * ik] == mo[2:2 + 5 * ik] and io[2 + 5 * ik:] == mo[2 + 5 * mk:]
                 if ok:
                     ctx.count("tail-dropped-at-close")
             if not ok:
